@@ -304,6 +304,7 @@ def assign_atom(a, t, st):
                 st.flags.add(ent[3])
             if b == STR:
                 lit = "s%dzq" % n
+                a['strlit'] = (txt == '%s')         # the whole initializer is a string-literal token
                 a['text'], a['val'] = txt % ('"%s"' % lit), ('p', STR, str_hash(lit[off:]))
             else:
                 a['text'], a['val'] = txt, ('p', b, off)
@@ -468,6 +469,9 @@ def run_list(o, t, items, st):
                 p.append(0)
                 st.flags.add('elision')
             apply_init(co, ct, ini, st)
+            if not desig and popped and ini.get('strlit'):
+                # same gcc reading as above for a string literal that (by 6.7.9p17) initializes a pointer
+                st.undefined = "string literal following a nested designator that ended an inner aggregate"
             endp = p
         cursor = advance(t, endp)
         if desig:
